@@ -32,8 +32,8 @@ RULE = (
     "case = HierSpec: 1-3 generated leaf templates (typed combinational expressions over Bit/Unsigned/Signed/"
     "BitVector ports, optionally registered), 0-2 mid-level and one top node template with 1-3 instances each "
     "(tree depth <= 3, fan-out <= 3, templates repeated), actuals = whole signals, static slices / bit indices of "
-    "wider objects, .unsigned/.signed/.bitvector views, parent ports passed through, width-mismatched actuals in "
-    "both directions; instances created in architecture(), via std.OpenEntity / std.ConnectedEntity and inside a "
+    "wider objects, .unsigned/.signed/.bitvector views, parent ports passed through, computed values (x ^ y, x + c, "
+    "x < y) on inputs, width-mismatched actuals in both directions; instances created in architecture(), via std.OpenEntity / std.ConnectedEntity and inside a "
     "concurrent context; declaration order, keyword order and directions permuted. Non-trivial = the hierarchical "
     "design compiled and was checked, and it has >= 2 instances in the tree, or instantiation depth >= 2, or a "
     "slice/index/view actual; distinct = hash of the spec"
@@ -212,10 +212,10 @@ def check_structure(spec, d, units, out):
                     if p is None or p > me:
                         out.add({"kind": "structure", "what": "order", "unit": kind},
                                 f"{kind} {vi.entity} is not emitted before architecture of {name} which instantiates it")
-        _match_instances(spec, t, vinsts, out)
+        _match_instances(spec, t, vinsts, out, d)
 
 
-def _match_instances(spec, t, vinsts, out):
+def _match_instances(spec, t, vinsts, out, d):
     T = spec["templates"]
     sinsts = t["insts"]
     if len(vinsts) != len(sinsts):
@@ -242,7 +242,11 @@ def _match_instances(spec, t, vinsts, out):
                 if r in port_names and port_names[r]["dir"] == "out":
                     roots.add("buffer_" + r)
                 sl = a.get("sl")
-                exp[f.lower()] = (roots, None if sl is None else tuple(sl), p["dir"])
+                if a.get("op"):
+                    # a computed value: the actual is a fresh signal that carries the value of the expression
+                    exp[f.lower()] = (None, "expr", p["dir"])
+                else:
+                    exp[f.lower()] = (roots, None if sl is None else tuple(sl), p["dir"])
             else:
                 exp[f.lower()] = (None, None, p["dir"])
         return child["name"].lower(), exp
@@ -251,8 +255,9 @@ def _match_instances(spec, t, vinsts, out):
         """-> list of problems (what, formal, dir, text); 'unresolved' problems are not violations."""
         ename, exp = expected(inst)
         if vi.entity != ename:
-            return [("entity", "", "", f"instance of {vi.entity} where {ename} expected")]
+            return [("entity", "", "", f"instance of {vi.entity} where {ename} expected")], []
         probs = []
+        exprs = []
         seen = {}
         for k, a in enumerate(vi.pmap):
             if a.formal is None:
@@ -286,6 +291,8 @@ def _match_instances(spec, t, vinsts, out):
                 if na[0] in known or na[1] is not None:
                     probs.append(("wrong_actual", f, dr, f"{f}: helper-created signal expected, found {na}"))
                 autos.append(na[0])
+                if sel == "expr":
+                    exprs.append((f, na[0], inst["where"]))
                 continue
             if na[0] not in known:
                 probs.append(("unresolved", f, dr, f"{f}: actual {na} is not a known object of {t['name']}"))
@@ -294,17 +301,19 @@ def _match_instances(spec, t, vinsts, out):
                 probs.append(("wrong_actual", f, dr, f"{f}: spec gave {sorted(roots)}{sel or ''}, port map has {na}"))
         if len(set(autos)) != len(autos):
             probs.append(("auto_shared", "", "", f"helper-created signals shared: {autos}"))
-        return probs
+        return probs, exprs
 
     best = None
     for perm in itertools.permutations(range(len(sinsts))):
-        probs = []
+        probs, exprs = [], []
         for vi, si in zip(vinsts, perm):
-            probs += [(w, f, dr, f"{vi.label_raw}: {txt}") for (w, f, dr, txt) in compare(vi, sinsts[si])]
+            pr, ex = compare(vi, sinsts[si])
+            probs += [(w, f, dr, f"{vi.label_raw}: {txt}") for (w, f, dr, txt) in pr]
+            exprs += ex
         hard = [p for p in probs if p[0] != "unresolved"]
         key = (len(hard), len(probs))
         if best is None or key < best[0]:
-            best = (key, probs)
+            best = (key, probs, exprs)
         if key == (0, 0):
             break
     out.counters["assocs_checked"] = out.counters.get("assocs_checked", 0) + sum(len(v.pmap) for v in vinsts)
@@ -313,6 +322,16 @@ def _match_instances(spec, t, vinsts, out):
             out.labels.append("struct_unresolved")
         else:
             out.add({"kind": "structure", "what": what, "dir": dr}, f"{t['name']}: {txt}")
+    # the signal that stands for a computed actual must be driven (by the assignment of the expression)
+    ent = d.entities.get(t["name"].lower())
+    if ent is not None and ent.arch is not None and best[0][0] == 0:
+        driven = {o.name for o in getattr(ent.arch, "drivers", {})}
+        for f, sig, where in best[2]:
+            out.counters["expr_actuals_checked"] = out.counters.get("expr_actuals_checked", 0) + 1
+            if sig not in driven:
+                out.add({"kind": "expr_actual", "what": "undriven", "where": where},
+                        f"{t['name']}: formal {f} is associated with signal {sig}, which stands for the computed actual "
+                        f"the design gave, but nothing drives {sig}: the expression is never assigned")
 
 
 def is_portmap_error(e):
@@ -426,6 +445,9 @@ def check(case):
                 out.labels.append(f"static:{e.rule}")
         out.status = "blocked_by_static" if other and not out.findings else "ok"
         out.labels.append("not_simulated")
+        return out
+    if any(f["signature"].get("kind") == "expr_actual" for f in out.findings):
+        out.labels.append("not_simulated")      # the input of the instance is undriven: behaviour is known to differ
         return out
     if narrowing:
         out.labels.append("narrowing_accepted")
